@@ -99,6 +99,37 @@ def benign_patch_variants(prop):
     return out
 
 
+TRIAGE_UNDECIDED = ('M0851',)     # judged "marginal" by the triage itself
+
+
+def triage_variants(prop):
+    """Surviving mutants of the generic sweep that sub-agents triaged against
+    the property texts (mutation/triage.json): the ones demonstrated to break
+    `prop` must be reported by its check, the ones shown equivalent must leave
+    every check silent."""
+    out = []
+    tp = os.path.join(VERIF, 'mutation', 'triage.json')
+    if not os.path.exists(tp):
+        return out
+    import re
+    with open(tp) as fh:
+        rows = json.load(fh)
+    for r in rows:
+        d = os.path.join(VERIF, 'mutation', 'demos', r['id'] + '.diff')
+        if not os.path.exists(d) or r['id'] in TRIAGE_UNDECIDED:
+            continue
+        v = r['verdict']
+        if v.startswith('BREAKS'):
+            m = re.search(r'C\d\d', v)
+            if m and m.group(0) == prop:
+                out.append(dict(id='mutant:' + r['id'], prop=prop, rule=None,
+                                kind='break', edits=[], patch=d, function=None))
+        elif v.startswith('EQUIV'):
+            out.append(dict(id='mutant-eq:' + r['id'], prop=prop, rule=None,
+                            kind='benign', edits=[], patch=d, function=None))
+    return out
+
+
 def run_variant(args):
     v, repo_root = args
     warnings.simplefilter('ignore')
@@ -171,7 +202,7 @@ def run_variants(variants, repo_root, jobs=16):
 def run_for_property(prop, repo_root):
     from .variants import VARIANTS
     vs = [v for v in VARIANTS if v['prop'] == prop] + seeded_variants(prop) \
-        + benign_patch_variants(prop)
+        + benign_patch_variants(prop) + triage_variants(prop)
     t0 = time.time()
     results = run_variants(vs, repo_root)
     lines = []
@@ -180,8 +211,8 @@ def run_for_property(prop, repo_root):
         flag = 'ok  ' if r['ok'] else ('STALE' if r.get('stale') else 'BAD ')
         if not r['ok'] and not r.get('stale'):
             bad += 1
-        if r['ok'] and r['id'].startswith('benign:'):
-            continue        # 88 silent lines per property are not worth printing
+        if r['ok'] and r['id'].startswith(('benign:', 'mutant-eq:')):
+            continue        # silent lines are not worth printing
         lines.append('  selftest %-5s %-6s %-28s %-6s %s'
                      % (flag, r['kind'], r['id'], r.get('rule') or '',
                         r['detail'][:110]))
@@ -209,7 +240,12 @@ def merge_into_evidence(prop, st):
         stale=sum(1 for r in rs if r.get('stale')),
         samples=[dict(id=r['id'], kind=r['kind'], rule=r.get('rule'),
                       ok=r['ok'], detail=r['detail'][:160])
-                 for r in rs if not r['id'].startswith('benign:')][:40],
+                 for r in rs if not r['id'].startswith(('benign:', 'mutant-eq:'))][:40],
+        triaged_mutants_reported=sum(1 for r in rs if r['id'].startswith('mutant:')
+                                     and r['ok']),
+        triaged_mutants=sum(1 for r in rs if r['id'].startswith('mutant:')),
+        equivalent_mutants_silent=sum(1 for r in rs if r['id'].startswith('mutant-eq:')
+                                      and r['ok']),
         benign_patches=sum(1 for r in rs if r['id'].startswith('benign:')),
         benign_patches_silent=sum(1 for r in rs if r['id'].startswith('benign:')
                                   and r['ok']))
